@@ -9,6 +9,7 @@ mod c18;
 mod c15;
 mod c06;
 mod c19;
+mod c10;
 mod util;
 
 /// Counting allocator: live heap bytes of the process (C17 measures the receiver with it).
@@ -59,6 +60,7 @@ fn main() {
         "toi" => c15::run(&args),
         "wire" => c06::run(&args),
         "expiry" => c19::run(&args),
+        "fdt" => c10::run(&args),
         other => {
             eprintln!("unknown subcommand {}", other);
             std::process::exit(2);
